@@ -327,8 +327,8 @@ fn run_hist<P: ParseAt + Dig + std::fmt::Debug>(enc: Enc, data: &[u8], hist: &[I
     (res, f.get())
 }
 
-struct Sequences {
-    depth: usize,
+pub struct Sequences {
+    pub depth: usize,
 }
 impl Space for Sequences {
     fn name(&self) -> String {
